@@ -424,14 +424,24 @@ class Shadow:
         self.attached = all(hasattr(DP.Entry, a) for a in ("update", "value", "infos"))
         shadow = self
 
-        def update(self_, *cands):
-            rec = shadow.entries.get(id(self_))
-            if rec is None:
-                # entry first seen here: its state so far is an opaque initial candidate set
-                init = [(num(self_.value()), t) for t in self_.infos()] or ([(num(self_.value()), None)] if not self_.is_infinite() else [])
-                rec = shadow.entries[id(self_)] = (self_, list(init))
-            shadow.orig_update(self_, *cands)
-            rec[1].extend((num(c.value), c.info) for c in cands)
+        def update(self_, *cands, **kw):
+            rec = None
+            try:
+                rec = shadow.entries.get(id(self_))
+                if rec is None:
+                    # entry first seen here: its state so far is an opaque initial candidate set
+                    init = [(num(self_.value()), t) for t in self_.infos()] or ([(num(self_.value()), None)] if not self_.is_infinite() else [])
+                    rec = shadow.entries[id(self_)] = (self_, list(init))
+            except Exception:  # noqa: BLE001 - the shadow must never disturb what it observes
+                shadow.attached = False
+            res = shadow.orig_update(self_, *cands, **kw)
+            try:
+                if rec is not None:
+                    rec[1].extend((num(c.value), c.info) for c in cands)
+            except Exception:  # noqa: BLE001
+                shadow.attached = False
+                shadow.entries.pop(id(self_), None)
+            return res
 
         DP.Entry.update = update
 
